@@ -29,5 +29,12 @@ for rd in (1, 0):
                            functions=["sf_%s_raw" % ("read" if rd else "write"), "psf_default_seek"],
                            bounds="16-bit samples, dataoffset 4, frames <= 4, request |bytes| <= 2 frames, symbolic file bytes incl. bytes after the audio data"))
 
+import importlib.util, os
+def _load(n):
+    spec = importlib.util.spec_from_file_location("reg_%s_x" % n, os.path.join(os.path.dirname(os.path.abspath(__file__)), n + ".py"))
+    m = importlib.util.module_from_spec(spec); spec.loader.exec_module(m); return m
+# codec level (K-codec-read / K-codec-write for every sample-granular codec): read side here, write side under C01/C07
+HARNESSES += _load("sg_common").sg_harnesses(("SEL_RD",))
+
 META = {"assumptions": ["I_open (harness/include/handle.h) is the handle invariant", "codec entry points satisfy K-codec-read/-write/K-seek (proved per codec in the codec harnesses)"],
         "outside": ["request sizes beyond 2 frames at wrapper level (arithmetic is uniform in len)"]}
